@@ -25,7 +25,7 @@ ASSUMPTIONS = ["the socket side of the IOWorker is not exercised (bytes are push
 
 NPORTS = 4
 KINDS = ['echo', 'features', 'get_config', 'set_config', 'barrier', 'st_desc', 'st_flow', 'st_aggregate', 'st_table', 'st_port', 'st_queue',
-         'st_vendor', 'st_unknown', 'vendor', 'queue_cfg', 'port_mod', 'flow_mod_bad', 'flow_mod_add', 'packet_out_buf', 'hello', 'short', 'unknown_type', 'long_stats']
+         'st_vendor', 'st_unknown', 'vendor', 'queue_cfg', 'port_mod', 'flow_mod_bad', 'flow_mod_add', 'packet_out_buf', 'hello', 'short', 'unknown_type', 'long_stats', 'switch_only']
 SHORT_TYPES = [9, 14, 13, 15, 16, 20, 4]      # set_config, flow_mod, packet_out, port_mod, stats_request, queue_get_config, vendor: all longer than a bare header
 
 
@@ -185,6 +185,11 @@ def h_seq(ctx, plan):
     elif kind == 'unknown_type':
       msg = Raw(ctx, ctx.int('utype%d' % i, 22, 255), 8 + 2, [0xaa, 0xbb] if i % 2 else [])
       if not i % 2: msg.length = 8
+      error(xid, 1, (1,))
+    elif kind == 'switch_only':
+      # a well-formed message of a type only switches send (it decodes): not a request a switch accepts - BAD_REQUEST / BAD_TYPE, not silence
+      sel = int(ctx.int('sotype%d' % i, 0, 3))
+      msg = [of.ofp_barrier_reply(), of.ofp_packet_in(data=b'abc', in_port=1), of.ofp_get_config_reply(), of.ofp_flow_removed()][sel]
       error(xid, 1, (1,))
     else:
       raise KeyError(kind)
